@@ -126,19 +126,21 @@ theorem C16_no_run_after_shutdown_complete (p : Params) (ts : List Thr) (h0 : In
 /-- **C16, termination and quiescence, full statement.**  In every reachable configuration in which
 nobody can move any more: the pending counter is zero (so every accepted task has been run or
 cancelled), every client call has returned — except `ShutdownComplete.Wait()` calls (directly, or
-`Start`'s wait for the workers of the previous run) on a pool that is running again — and a pool that
+`Start`'s wait for the workers of the previous run) on a pool that is running again, and foreign goroutines asleep
+in `Queue.WaitSizeIsAbove` on the pool's exported queue — and a pool that
 is not running has no live goroutine (`ShutdownComplete` is at zero), i.e. every
 `Shutdown(); ShutdownComplete.Wait()` has terminated. -/
 def C16_statement : Prop :=
   ∀ (p : Params) (ts : List Thr) (c : Cfg St Thr), 0 < p.W → Initial ts → Thr.runner ∈ ts →
     Reach (sys p) (St.init, ts) c → Stuck (sys p) c →
       c.1.pending = 0 ∧
-      (∀ t ∈ c.2, t.finished = true ∨ (t.atWaitComplete = true ∧ c.1.running = true)) ∧
+      (∀ t ∈ c.2, t.finished = true ∨ (t.atWaitComplete = true ∧ c.1.running = true) ∨ t.atQueueWait = true) ∧
       (c.1.running = false → wg c.1 = 0)
 
 /-- **C16, termination (full strength; the code as repaired by a0dbad3, 9b2668a, 1119368).**  For every
 worker count ≥ 1, cancel-on-shutdown on or off, any number of client threads with arbitrary scripts
-(Submit of tasks that submit tasks, Shutdown, Start, ShutdownComplete.Wait, WaitIsZero) and **every**
+(Submit of tasks that submit tasks, Shutdown, Start, ShutdownComplete.Wait, WaitIsZero, and any number of
+foreign `Queue.WaitSizeIsAbove(n)` waiters on the queue's `elementAdded` condition) and **every**
 schedule — including a `Submit` between its counted running-check and its push when `Shutdown` switches
 the pool off, a `Shutdown` while the dispatcher is between `PopOrWait`'s wait condition and its `Wait`,
 and concurrent `Start`/`Shutdown` calls — a configuration in which nobody can move is a good one.
@@ -209,21 +211,45 @@ def scStartRaceSched : List (Nat × Nat) :=
    (3, 0), (3, 0), (3, 0), (1, 0), (1, 0), (3, 0), (3, 0), (3, 0), (3, 0), (2, 0), (2, 0), (2, 0), (2, 0),
    (2, 0), (2, 0), (3, 0), (3, 0), (3, 0), (3, 0), (3, 0), (3, 0), (3, 0), (3, 0), (2, 0), (2, 0)]
 
+def scHasWorkSched : List (Nat × Nat) :=
+  [(0, 0), (0, 0), (3, 0), (3, 0), (3, 0), (3, 0), (1, 0), (1, 0), (1, 0), (1, 0), (3, 0), (3, 0), (3, 1),
+   (3, 1), (3, 1), (3, 1), (3, 1), (3, 0), (3, 0), (3, 0), (3, 0), (2, 0), (2, 0), (2, 0), (2, 0), (2, 0),
+   (2, 0), (3, 0), (3, 0), (3, 0), (3, 0), (3, 0), (3, 0), (3, 0), (3, 0), (2, 0), (2, 0)]
+
+def scForeignSched : List (Nat × Nat) :=
+  [(0, 0), (0, 0), (3, 0), (3, 0), (3, 0), (3, 0), (1, 0), (1, 0), (2, 0), (2, 0), (0, 0), (0, 0), (0, 0),
+   (0, 0), (1, 0), (1, 0), (2, 0), (2, 0), (3, 0), (3, 0), (3, 1), (3, 1), (3, 1), (3, 1), (3, 1), (1, 0),
+   (1, 0), (2, 0), (2, 0), (0, 0), (0, 0), (3, 0), (3, 0), (3, 0), (3, 0), (0, 0), (0, 0), (0, 0), (0, 0),
+   (0, 0), (0, 0), (1, 0), (1, 0), (2, 0), (2, 0), (3, 0), (3, 0), (3, 0), (3, 0), (3, 0), (3, 0), (3, 0),
+   (3, 0), (0, 0), (0, 0)]
+
+theorem C16_sched_haswork_example : scHasWork.sched = scHasWorkSched := by decide
+theorem C16_sched_foreign_example : scForeign.sched = scForeignSched := by decide
 theorem C16_sched_window_example : scWindow.sched = scWindowSched := by decide
 theorem C16_sched_window_busy_example : scWindowBusy.sched = scWindowBusySched := by decide
 theorem C16_sched_gap_example : scGap.sched = scGapSched := by decide
 theorem C16_sched_restart_example : scRestart.sched = scRestartSched := by decide
 theorem C16_sched_start_race_example : scStartRace.sched = scStartRaceSched := by decide
 
+/-- With two foreign goroutines asleep in `Queue.WaitSizeIsAbove(5)`: every pool call returns, the pool shuts down
+completely, the two foreign waiters — woken by each broadcast — are asleep again at the end (non-vacuity of the
+`atQueueWait` clause of `C16_statement`). -/
+theorem C16_foreign_waiters_example :
+    let c := runSched (sys scForeign.p) scForeign.init scForeignSched
+    stuckB scForeign.p c = true ∧ c.2.countP Thr.atQueueWait = 2 ∧ c.2.countP Thr.finished = 2 ∧ c.1.pending = 0 ∧
+      wg c.1 = 0 ∧ c.1.running = false ∧ c.1.fwait = 2 ∧ countPhase c.1 (· == .done) = 1 := by
+  decide
+
 /-- The schedules on which the old code failed (Submit window; Submit window with a busy worker; PopOrWait
-gap; `Shutdown(); Start()` back to back; a `Start` overtaken by a restart and a second shutdown), run on
+gap; `Shutdown(); Start()` back to back; a `Start` overtaken by a restart and a second shutdown) and the one on
+which a dispatcher reading the counter before `isRunning` would fail, run on
 the model of the repaired code: each ends in a stuck configuration with every call returned, counter
 zero, no live goroutine, every accepted task run once, and a trace accepted by the trace predicate.
 The same five schedules are forced on the real code through the `verif` hooks and must give the same
 outcome (`sched` requests of the driver).  Non-vacuity of the theorems above. -/
 theorem C16_forced_schedules_example :
     ∀ sc ∈ [(scWindow, scWindowSched, 1), (scWindowBusy, scWindowBusySched, 2), (scGap, scGapSched, 0),
-            (scRestart, scRestartSched, 1), (scStartRace, scStartRaceSched, 2)],
+            (scRestart, scRestartSched, 1), (scStartRace, scStartRaceSched, 2), (scHasWork, scHasWorkSched, 1)],
       let c := runSched (sys sc.1.p) sc.1.init sc.2.1
       stuckB sc.1.p c = true ∧ clientsDone c = true ∧ c.1.pending = 0 ∧ wg c.1 = 0 ∧ c.1.running = false ∧
         countPhase c.1 (· == .done) = sc.2.2 ∧ c.1.broken = false ∧ c.1.due = 0 ∧
